@@ -53,9 +53,22 @@ CHECKS = {
  "C14": (True, "fault_enumeration", "exhaustive fault-plan enumeration ({none,before,after}^calls) at every state of a bounded BFS",
          "At every history point each money-moving transaction is run under every subset of its dependency calls failing before/after taking effect, and under every late validation failure after the burn; "
          "a failure must surface as an error (state and events then equal the pre-state), a success must have had nil results from all dependency calls and an emitted message / marked nonce.", "5 C14", ""),
+ "C15": (True, "model_checking", "exhaustive menu over every transaction type/branch from several states with a recording store service; path census over error-return sites",
+         "From six states every transaction type runs in its success path and every failure branch (79 of 85 error-return sites driven, the other 6 documented unreachable), and every query/export is called: "
+         "raw store writes stay in the documented key classes, the typed diff is exactly the named entry, no invisible keys, failed transactions/queries/export write nothing.", "5 C15",
+         "The static all-paths half of the quantifier is decided only for the driven paths (census in the evidence)."),
  "C16": (True, "model_checking", "exhaustive enumeration of byte strings and field values against an independent reference codec",
          "Every length 0..N x structured patterns incl. a walking byte at every position, and the product of boundary field values x field sizes, are decoded/encoded by the "
          "implementation and by an independent codec written from the stated layout; results must agree and round-trip.", "5 C16", ""),
+ "C17": (True, "model_checking", "exhaustive product over genesis list contents + explicit-state BFS with export/import differential",
+         "Every sequence (length <=3) over colliding entries in each keyed list (pairs of lists in thorough) x optional fields x roles: duplicates must be rejected, accepted states must round-trip as multisets; "
+         "in every state of a BFS over all 25 transaction types, init(export(s)) into an empty chain must reproduce the raw module store key for key. One known finding (pending owner has no genesis field).", "5 C17", ""),
+ "C19": (True, "model_checking", "per-registry BFS to closure + combined BFS, every query compared with reference maps after every transition",
+         "All contents of each registry over small colliding key universes are reached by real transactions; after every transition every single-item query for every key, every list query for every page size in key and offset mode with totals, and all scalar queries are compared with reference maps.", "5 C19", ""),
+ "C20": (True, "model_checking", "exhaustive product of per-field nasty domains per message type, decoded from wire bytes, under recover()",
+         "Every combination of field shapes (absent, empty, malformed, oversized, non-ASCII, boundary integers) for all 25 transaction types in four reachable states, all 19 queries with nil/extreme requests, "
+         "the decoders and verifier over all lengths 0..300, and the CLI address parser over all short strings: none may panic.", "5 C20",
+         "Uses the verif hook exporting the CLI parser."),
 }
 
 NOT_BUILT_REASON = "check not built yet in this round (design in DESIGN.md section 5); no claim is made"
